@@ -455,13 +455,6 @@ fn format(opt: opt::Opt) -> Result<i32> {
                     let path = entry.path().to_owned(); // TODO: stop to_owned?
                     let opt = opt.clone();
 
-                    // The same file can be reached through several arguments under different names
-                    // (e.g. `./foo.lua` and `foo.lua`), so compare the resolved location
-                    let resolved_path = fs::canonicalize(&path).unwrap_or_else(|_| path.clone());
-                    if !seen_files.insert(resolved_path) {
-                        continue;
-                    }
-
                     if path.is_file() {
                         // If the user didn't provide a glob pattern, we should match against our default one
                         if use_default_glob && should_respect_ignores(opt.as_ref(), path.as_path())
@@ -486,6 +479,15 @@ fn format(opt: opt::Opt) -> Result<i32> {
                             && should_respect_ignores(opt.as_ref(), &path)
                             && path_is_stylua_ignored(&path, opt.search_parent_directories)?
                         {
+                            continue;
+                        }
+
+                        // The same file can be reached through several arguments under different names
+                        // (e.g. `./foo.lua` and `foo.lua`), so compare the resolved location.
+                        // Only files which are going to be formatted are recorded, so that a file skipped when it
+                        // was found in a directory is still formatted when it is also named explicitly.
+                        let resolved_path = fs::canonicalize(&path).unwrap_or_else(|_| path.clone());
+                        if !seen_files.insert(resolved_path) {
                             continue;
                         }
 
